@@ -6,10 +6,15 @@ mod gen;
 mod gen_dispatch;
 mod hand;
 mod hand_samplers;
+mod hand_mv;
 mod proto;
 mod rng;
 mod search;
 mod search_mods;
+mod search_c19;
+mod search_c10;
+mod search_c09;
+mod search_c07;
 mod search_c20;
 mod search_c12;
 mod search_c11;
